@@ -130,10 +130,14 @@ fn build(req: &Req, id: u16) -> Vec<u8> {
 }
 
 fn gen_addr(r: &mut SplitMix) -> String {
-    match r.below(10) {
+    match r.below(12) {
         0..=4 => Ipv4Addr::from(r.next() as u32).to_string(),
         5..=7 => Ipv6Addr::from(((r.next() as u128) << 64) | r.next() as u128 | (0x2000u128 << 112)).to_string(),
-        _ => format!("::ffff:{}", Ipv4Addr::from(r.next() as u32)),
+        8..=9 => format!("::ffff:{}", Ipv4Addr::from(r.next() as u32)),
+        // IPv6 addresses that merely *look* like IPv4 ones: IPv4-compatible ::a.b.c.d, loopback,
+        // the unspecified address, and other members of ::/64 (all genuine IPv6 sources)
+        10 => Ipv6Addr::from((r.next() as u32) as u128).to_string(),
+        _ => pick(r, &["::1", "::", "::2", "::1:0:0:1", "::fffe:10.0.0.1", "64:ff9b::10.0.0.1", "0:0:0:1::1"]).to_string(),
     }
 }
 fn gen_req(r: &mut SplitMix) -> Req {
@@ -155,17 +159,22 @@ fn adversarial_addr(r: &mut SplitMix, a: &str, v4p: u8, v6p: u8) -> String {
     match parse_ip(a) {
         IpAddr::V4(x) => {
             let v = u32::from(x);
-            match r.below(5) {
+            match r.below(7) {
                 0 if v4p < 32 => Ipv4Addr::from(v ^ (1 << (31 - v4p as u32))).to_string(), // first bit outside the prefix
                 1 if v4p > 0 => Ipv4Addr::from(v ^ (1 << (32 - v4p as u32))).to_string(),  // last bit inside the prefix
                 2 => format!("::ffff:{x}"),                                                // same host, mapped form
                 3 => Ipv6Addr::from((v as u128) << 64).to_string(),                        // IPv6 whose upper half equals the IPv4 value
+                4 => Ipv6Addr::from(v as u128).to_string(),                                // IPv4-compatible ::a.b.c.d: an IPv6 source
+                5 => Ipv6Addr::from(0xfffe_0000_0000u128 | v as u128).to_string(),         // ::fffe:a.b.c.d: not mapped either
                 _ => Ipv4Addr::from(v ^ 1).to_string(),
             }
         }
         IpAddr::V6(x) => {
             let v = u128::from(x);
-            match r.below(4) {
+            match r.below(6) {
+                // the same low 32 bits as a plain IPv4 address / in mapped form
+                4 => Ipv4Addr::from(v as u32).to_string(),
+                5 => format!("::ffff:{}", Ipv4Addr::from(v as u32)),
                 0 if v6p < 64 => Ipv6Addr::from(v ^ (1u128 << (127 - v6p as u32))).to_string(),
                 1 if v6p > 0 => Ipv6Addr::from(v ^ (1u128 << (128 - v6p as u32))).to_string(),
                 2 => Ipv6Addr::from(v ^ 1).to_string(), // differs only in the interface identifier
@@ -309,7 +318,7 @@ impl Prop for C27 {
         "E3 simrt-sequential"
     }
     fn expected_probes() -> Vec<&'static str> {
-        vec!["c27_b_limited", "c27_b_not_limited_same_name_other_net", "c27_wildcard_same_stream", "c27_mapped_equals_v4", "c27_tcp_or_nonquery_not_limited", "c27_error_categories_share_stream"]
+        vec!["c27_b_limited", "c27_b_not_limited_same_name_other_net", "c27_wildcard_same_stream", "c27_mapped_equals_v4", "c27_tcp_or_nonquery_not_limited", "c27_error_categories_share_stream", "c27_v4_lookalike_v6_source"]
     }
 }
 
@@ -354,6 +363,12 @@ fn run_case(scn: &Scn, hash_key: u64) -> Option<(String, String, bool)> {
                 _ => 2,
             })
             .unwrap_or(2);
+        if let IpAddr::V6(a) = src {
+            let o = a.octets();
+            if o[..8].iter().all(|b| *b == 0) && !(o[8..10] == [0, 0] && o[10..12] == [0xff, 0xff]) {
+                simrt::probe("c27_v4_lookalike_v6_source");
+            }
+        }
         let me = Seen {
             eligible_and_answered: eligible,
             net: net_of(src, scn.v4_prefix, scn.v6_prefix),
